@@ -243,10 +243,57 @@ pub fn run(tier: Tier) -> i32 {
             Err((s, b)) => run.violate(Some(b.key.clone()), format!("{:?}: {}", s, b.why), json!({"driver":"STR-tokens","source": s, "why": b.why})),
         }
     }
-    run.states = nstr + st.executions;
-    run.transitions = nstr + st.points;
-    run.validated = nstr + st.executions;
-    run.set("bounds", json!({"alphabet": ALPHA.iter().collect::<String>(), "max_len": maxlen, "token_list": TOKENS.len(), "separators": SEPS, "token_seq_len": tier.pick(2, 3)}));
+    // --- part C (HIST): lexing is a function of its input alone. After every string up to hist_len
+    // (accepted or rejected, through both entry points) the fixed probes must lex to the token lists
+    // they gave before anything else was lexed in this process.
+    let hist_len = tier.pick(4, 5);
+    let expected: Vec<String> = HIST_PROBES.iter().map(|p| lex_obs(p)).collect();
+    let mut hblocks: Vec<(usize, u64, u64)> = vec![];
+    for len in 1..=hist_len {
+        let total = (ALPHA.len() as u64).pow(len as u32);
+        let mut lo = 0;
+        while lo < total {
+            hblocks.push((len, lo, (lo + 20_000).min(total)));
+            lo += 20_000;
+        }
+    }
+    let hres = par_map(
+        &hblocks,
+        || (),
+        |_, &(len, lo, hi)| {
+            let mut bad: Vec<(String, usize, String)> = vec![];
+            let mut n = 0u64;
+            for i in lo..hi {
+                let s = nth_string(i, len);
+                let _ = guard(|| lex_source(&s));
+                let _ = guard(|| lex_source_recovery(&s, 1));
+                for (k, p) in HIST_PROBES.iter().enumerate() {
+                    n += 1;
+                    let got = lex_obs(p);
+                    if got != expected[k] && bad.len() < 20 {
+                        bad.push((s.clone(), k, got));
+                    }
+                }
+            }
+            (n, bad)
+        },
+    );
+    let mut nh = 0u64;
+    for (n, bad) in hres {
+        nh += n;
+        for (s, k, got) in bad {
+            run.violate(
+                Some("lexing-depends-on-history".into()),
+                format!("after lexing {:?}, {:?} lexes to {} (alone: {})", s, HIST_PROBES[k], got, expected[k]),
+                json!({"driver":"HIST","history":[s],"probe":HIST_PROBES[k]}),
+            );
+        }
+    }
+    run.count("history_probe_lexes", nh);
+    run.states = nstr + st.executions + nh;
+    run.transitions = nstr + st.points + nh;
+    run.validated = nstr + st.executions + nh;
+    run.set("bounds", json!({"alphabet": ALPHA.iter().collect::<String>(), "max_len": maxlen, "history_len": hist_len, "history_probes": HIST_PROBES, "token_list": TOKENS.len(), "separators": SEPS, "token_seq_len": tier.pick(2, 3)}));
     run.set("rule", json!("every string over the alphabet up to max_len, every token sequence × separator; distinct = distinct token-kind sequences among accepted strings"));
     for s in ["a..1", "f\"{a}\" \n\\ 'é'", "r's'#", "1.e0"] {
         run.sample(json!({"source": s, "verdict": format!("{:?}", check_source(s).map_err(|b| b.why))}));
@@ -256,7 +303,33 @@ pub fn run(tier: Tier) -> i32 {
     run.finish()
 }
 
+/// Probes of the history part: one per lexer path that builds its token from accumulated text.
+const HIST_PROBES: &[&str] = &["x == \"c\"", "'d' f\"{e}\" s'q'", "r'z' 1.5 @2020-01-01", "`b c` 0x1f # k\n2days"];
+
+fn lex_obs(src: &str) -> String {
+    match guard(|| (lex_source(src), lex_source_recovery(src, 1))) {
+        Ok((a, (b, e))) => format!("{:?} / {:?} / {}", a.map(|t| t.0).map_err(|e| e.len()), b, e.len()),
+        Err(p) => format!("panic {}", p.msg),
+    }
+}
+
 pub fn replay(v: &serde_json::Value) -> i32 {
+    if v["driver"] == "HIST" {
+        let probe = v["probe"].as_str().unwrap_or("");
+        let alone = lex_obs(probe);
+        for h in v["history"].as_array().cloned().unwrap_or_default() {
+            let h = h.as_str().unwrap_or("").to_string();
+            let _ = guard(|| lex_source(&h));
+            let _ = guard(|| lex_source_recovery(&h, 1));
+        }
+        let after = lex_obs(probe);
+        if after == alone {
+            println!("OK {:?} lexes the same after the history", probe);
+            return 0;
+        }
+        println!("FAIL {:?}: alone {} / after history {}", probe, alone, after);
+        return 1;
+    }
     let s = v["source"].as_str().unwrap_or("");
     match check_source(s) {
         Ok(r) => {
